@@ -1,6 +1,6 @@
 (* Lmmm/LayoutProg.v — C05 at program level: one dsp call, then every run length. *)
 From Coq Require Import List ZArith NArith Bool Lia.
-From Mimium Require Import StateTree.Model StateTree.Lemmas Lmmm.Syntax Lmmm.Ref Lmmm.Compile Lmmm.Machine Lmmm.Wf Lmmm.Spec Lmmm.Base Lmmm.Layout.
+From Mimium Require Import StateTree.Model Lmmm.Syntax Lmmm.Ref Lmmm.Compile Lmmm.Machine Lmmm.Wf Lmmm.Spec Lmmm.Base Lmmm.Layout.
 Import ListNotations.
 Local Open Scope N_scope.
 
